@@ -54,7 +54,7 @@ PROPS = {
     },
     "C16": {
         "bundles": ["chanbuf"], "kani": ["body"],
-        "fns": {"chanbuf": ["Message::length"]},
+        "fns": {"chanbuf": ["Message::length", "Message::try_clone", "Message::set_content"]},
         "assumptions": [A_KANI, "'all body types' is covered by instances {u8,u32,u64,(),[u8;4],Tok(with Drop),Other,NoClone}"],
         "not_covered": ["the derive macro's byte_len (sum over fields of the active variant): des-macros-core is not covered", "Body::length is linked to the Verus unit by an assumed contract (proved on the Kani side)"],
     },
